@@ -394,6 +394,42 @@ func run(c *rig.Ctx) {
 		c.Count("phase_cases", 1)
 	})
 
+	// (2c) FF46 reads back the last value written, whatever the spacing of the writes: three
+	// writes with every gap 0..170 between the first two (a transfer lasts 162 cycles, so the
+	// second write restarts, ends or follows the first transfer), a short or long second gap,
+	// and reads after every following cycle
+	c.Part("dmareg", 171*4, func(i int64, r *rig.Rng) {
+		g1 := int(i / 4)
+		g2 := []int{0, 1 + r.Intn(4), 5 + r.Intn(200), 161}[i%4]
+		w := newWorld(c, r)
+		vals := []uint8{uint8(r.Intn(0xf2)), uint8(r.Intn(0xf2)), uint8(r.Intn(0xf2)), r.U8()}
+		rd := func(ctxt string) {
+			w.check(0xff46, ctxt)
+			c.Count("dma_readbacks", 1)
+		}
+		w.write(0xff46, vals[0])
+		rd("right after the first FF46 write")
+		for k := 0; k < g1; k++ {
+			w.tick(1)
+			rd(fmt.Sprintf("%d cycles after the first FF46 write", k+1))
+		}
+		w.write(0xff46, vals[1])
+		rd(fmt.Sprintf("right after a second FF46 write %d cycles after the first", g1))
+		for k := 0; k < g2; k++ {
+			w.tick(1)
+			rd(fmt.Sprintf("%d cycles after a second FF46 write (%d after the first)", k+1, g1))
+		}
+		for n := 2; n < 4; n++ {
+			w.write(0xff46, vals[n])
+			for k := 0; k < 170; k++ {
+				rd(fmt.Sprintf("%d cycles after FF46 write number %d (gaps before: %d, %d)", k, n+1, g1, g2))
+				w.tick(1)
+			}
+		}
+		c.Exact(1)
+		c.Count("dma_register_sequences", 1)
+	})
+
 	// (3) LY never takes a written value: paired runs that differ only in the value written
 	np := c.N(300, 6000)
 	c.Part("ly", np, func(i int64, r *rig.Rng) {
